@@ -23,9 +23,8 @@ confirmed=no
 check_rc=-
 if [ "$confirmed" = yes ] && [ "${SEED_SKIP_CHECK:-0}" != 1 ]; then
   git -C /repo apply "$PATCH" || { echo "seed $P/$V: patch does not apply to /repo"; exit 3; }
-  (cd /verif && VERIF_EVIDENCE_DIR=/tmp/seed_evidence timeout 3000 ./check "$P" --tier "${SEED_TIER:-quick}" >"$S/check_$V.log" 2>&1); check_rc=$?
+  (cd /verif && VERIF_OUT=/tmp/seed_out timeout 3000 ./check "$P" --tier "${SEED_TIER:-quick}" >"$S/check_$V.log" 2>&1); check_rc=$?
   git -C /repo checkout -q -- .
-  git -C /verif checkout -q -- evidence 2>/dev/null
 fi
 echo "seed $P/$V: demo_clean=$clean_rc tests=$tests_rc ($tests_tail) demo_mutated=$mut_rc confirmed=$confirmed check_rc=$check_rc"
 if [ "$check_rc" != - ]; then
